@@ -31,6 +31,14 @@ CHECKS = {
             "declarations covering all specifier multisets, struct/union/enum bodies, _Atomic(T), multi-declarators.",
             "Inside-out composition per C99 6.7.5; qualifiers of one level compared as sets.",
             "DESIGN.md section 2, C03"),
+    "C04": ("exploration",
+            "reference-model monitor: declaration histories with a model of C99 6.2.1 scoping; the reading of probe "
+            "statements (declaration/cast/type operand vs expression) is observed in the AST; gcc validates the model",
+            "Exhaustive over all legal event sequences of length <= 3 (quick) / <= 4 (thorough) over 17 event kinds x 2 names "
+            "x 2 initial states (plus 6 parameter-list styles for short histories), random longer histories; four known "
+            "scoping findings are attributed only when the trigger is present and the renamed twin reads correctly.",
+            "ref.scope validated by gcc -std=c99 -fsyntax-only on a sample each run (programs valid only under the expected readings).",
+            "DESIGN.md section 2, C04"),
     "C05": ("exploration",
             "reference-model monitor: expected statement nesting computed from the model by the rules the property "
             "states, matched in lock-step against FuncDef bodies",
